@@ -111,6 +111,9 @@ def judge_stack(parts):
 
 
 def replay(case):
+    if case.get("ext_registry"):
+        with _progdiff.ext_registry():
+            return judge(bytes.fromhex(case["hex"]))[0]
     if "parts" in case:
         return judge_stack([bytes.fromhex(p) for p in case["parts"]])[0]
     return judge(bytes.fromhex(case["hex"]))[0]
